@@ -190,14 +190,16 @@ def run(ctx: Ctx) -> None:
                 r.check(got == k, f"{short(f.qname)}|{attr}", f.loc(), f"{short(f.qname)}: `{attr} += 1` occurs {got} time(s) on a "
                         f"normal path, expected {k}")
     for f, st, t in attr_stores(m, "instruction_count"):
-        ok = (f is second) or (f.cls is not None and f.cls.name in ("SingleStage", "RegisterWritebackStage") and f.name == "behavior")
+        if not ("toy" in f.module.name):
+            continue  # the RISC-V writers are C02's business (R02.cnt)
+        ok = f is second
         r.check(ok and is_inc(st, "instruction_count"), f"{short(f.qname)}|instruction_count-writer", f.loc(st),
-                f"unexpected writer of instruction_count: `{seg(f, st)}`")
+                f"unexpected TOY writer of instruction_count: `{seg(f, st)}`")
     for f, st, t in attr_stores(m, "branch_count"):
         if ".toy." in f.qname or "toy_" in f.module.name:
             r.check(f.cls is not None and f.cls.name == "BRZ" and is_inc(st, "branch_count"), f"{short(f.qname)}|branch_count-writer", f.loc(st),
                     f"unexpected TOY writer of branch_count: `{seg(f, st)}`")
-    r.floor(8)
+    r.floor(6)
 
     # --------------------------------------------------------------- operators
     r = ctx.rule("R06.op", "operator table of the 13 opcodes")
